@@ -284,3 +284,53 @@ fn c20_retries_unready() {
 proofs!(plain = (false, false, false, 3), with_predicate = (false, true, false, 3), with_budget = (true, false, false, 3),
         with_budget_predicate_dynamic_max = (true, true, true, 3),
         plain_two_attempts = (false, false, false, 2), with_budget_two_attempts = (true, true, false, 2));
+
+/// Configuration reaches the service: attempt limit (fixed or per request), fixed back-off,
+/// predicate and budget set through the public builder — in two different orders — are the
+/// ones in the config of the service the layer builds.
+#[kani::proof]
+#[kani::unwind(4)]
+fn builder_is_faithful() {
+    use tower::Layer;
+    let n: usize = kani::any();
+    let d = any_millis(1_000_000);
+    let dynamic: bool = kani::any();
+    let with_pred: bool = kani::any();
+    let with_budget: bool = kani::any();
+    let k: usize = kani::any();
+    gh().dyn_max = n;
+    let mut b = crate::RetryLayer::<u32, InnerErr>::builder();
+    let budget_first: bool = kani::any();
+    if with_budget && budget_first {
+        b = b.budget(Arc::new(GhostBudget) as Arc<dyn RetryBudget>);
+    }
+    b = b.fixed_backoff(d);
+    b = if dynamic {
+        b.max_attempts_fn(|r: &u32| {
+            gh().dyn_asked = *r;
+            gh().dyn_max
+        })
+    } else {
+        b.max_attempts(n)
+    };
+    if with_pred {
+        b = b.retry_on(|e: &InnerErr| e.0 & 1 == 0);
+    }
+    if with_budget && !budget_first {
+        b = b.budget(Arc::new(GhostBudget) as Arc<dyn RetryBudget>);
+    }
+    let layer = b.build();
+    let r = layer.layer(Inner::new(svc::any_script()));
+    let c = &r.config;
+    let req: u32 = kani::any();
+    assert!(c.max_attempts_source.get_max_attempts(&req) == n, "[C05.config_max_attempts_used] the configured attempt limit (fixed or per request) is the one the service uses");
+    if dynamic {
+        assert!(gh().dyn_asked == req, "[C05.per_request_max] the per-request attempt limit is computed from this request");
+    }
+    assert!(c.policy.next_backoff(k) == d, "[C05.config_backoff_used] the configured fixed back-off is the one the service waits");
+    let e: u32 = kani::any();
+    assert!(c.policy.should_retry(&InnerErr(e)) == (!with_pred || e & 1 == 0), "[C05.config_predicate_used] the configured retry predicate decides (default: every error is retryable)");
+    assert!(c.budget.is_some() == with_budget, "[C05.config_budget_used] a configured budget is installed, none otherwise");
+    std::mem::forget(r);
+    std::mem::forget(layer);
+}
